@@ -10,6 +10,7 @@ is explicit in the model (`goIndex`, `goSlice`, `goSliceFrom` panic exactly wher
 runtime would).
 -/
 import DtailModel.Lemmas.NoPanic
+import DtailModel.Lemmas.GenDecode
 import DtailModel.Lemmas.GenQuery
 import DtailModel.Model.Base64
 namespace Dtail.C10
@@ -91,5 +92,28 @@ open Dtail.Go Dtail.Gen.MaprQuery in
 theorem C10_generated_query_parser_never_panics (ext : Ext) (q : Bytes) (hf : (Gen.MaprQuery.tokenize ext q).length < ext.fuel) :
     ∃ r, Gen.MaprQuery.NewQuery ext q = Outcome.ok r :=
   GenQuery.NewQuery_ok ext q hf
+
+/-! ### Tie G (panic-aware): the command decoder as translated from the working tree on this run -/
+
+/-- **No command string crashes the decoder of the working tree.**  `baseHandler.handleCommand` (with
+    `handleProtocolVersion`, `handleBase64`) of internal/server/handlers and `config.DeserializeOptions` / `setOption`
+    are translated on every run with every index and slice expression guarded; the effects of `handleCommand` outside
+    the translated state (sending a message, starting the command) are dropped.  For every byte string between two
+    ';' of the client's stream, every `base64` and every `strconv.Atoi`, none of the guards fails. -/
+theorem C10_generated_command_decoder_never_panics (ext : Go.Ext) (h : Gen.Decode.baseHandler) (cmd : Bytes) :
+    ∃ r, Gen.Decode.baseHandler.handleCommand ext h cmd = Outcome.ok r :=
+  GenDecode.handleCommand_ok ext h cmd
+
+/-- the parts: the option decoder on any option list, the protocol check on any argument list, the envelope decoder
+    whenever the count it is handed is the number of arguments (which is what the protocol check hands it) -/
+theorem C10_generated_decoder_parts_never_panic (ext : Go.Ext) (h : Gen.Decode.baseHandler) (args : List Bytes) :
+    GenQuery.IsOk (Gen.Config.DeserializeOptions ext args) ∧
+    GenDecode.VersionOk (Gen.Decode.baseHandler.handleProtocolVersion ext h args) ∧
+    GenDecode.Base64Ok (Gen.Decode.baseHandler.handleBase64 ext h args (args.length : Int)) :=
+  ⟨GenDecode.DeserializeOptions_ok ext args, GenDecode.handleProtocolVersion_ok ext h args,
+   GenDecode.handleBase64_ok ext h args _ rfl⟩
+
+/-- the envelope decoder does rely on its caller: handed a count of 2 with fewer arguments it would index out of range -/
+example : Gen.Decode.baseHandler.handleBase64 { parseFloat := fun _ => (0, none) } {} [] 2 = Outcome.panic "index out of range" := by decide
 
 end Dtail.C10
